@@ -71,6 +71,7 @@ type absEnv struct {
 	sliceFn   *ssa.Function
 	sliceSet  map[ssa.Instruction]bool
 	sliceStop *ssa.Store
+	newMapOpen func(key string) bool // openness given to http.Header maps the evaluated code creates
 	forkPlan []bool
 	forkLog  []bool
 	forkMemo map[string]bool
